@@ -44,7 +44,7 @@ NoW == [on |-> FALSE]
 \* often the clause applied) - printed per stream for the calibration table, not judged
 NoObs == -100000
 NoAcc == [sf |-> 0, sp |-> 0, nf |-> 0, drift |-> 0, o1 |-> NoObs, o2 |-> NoObs, o2b |-> NoObs, o2c |-> NoObs, o4 |-> NoObs, n1 |-> 0, n2 |-> 0, n4 |-> 0,
-          o5 |-> NoObs, o5b |-> NoObs, n5 |-> 0, sf3 |-> 0, sp3 |-> 0, nf3 |-> 0]
+          o5 |-> NoObs, o5b |-> NoObs, n5 |-> 0, sf3 |-> 0, sp3 |-> 0, nf3 |-> 0, qpos |-> 0]
 BigErr == 100000
 Mn(a, b) == IF a < b THEN a ELSE b
 Mx(a, b) == IF a > b THEN a ELSE b
@@ -134,7 +134,10 @@ Level == LevelOf(w.lv5)
 \* clean talk spurts separated by exact digital silence (family 11: harmonic, modulated, no additive noise, so the
 \* decoder's comfort-noise floor is zero) concealed by the speech / hybrid layer.  (Family 12, the same without
 \* pauses, is measured but not asserted: its concealment settles only 3 dB below the level.)
-CleanSpeechLayer == cf.sig = 11 /\ D!PlcMode(w.d) \in {MODE_SILK, MODE_HYBRID}
+\* Only once the stream has contained a pause (acc.qpos: end of the first packet the loss-free decoder rendered as
+\* silence): before that the comfort-noise estimate still holds the level of the stream's first frames.
+CleanSpeechLayer == /\ cf.sig = 11 /\ D!PlcMode(w.d) \in {MODE_SILK, MODE_HYBRID}
+                    /\ acc.qpos > 0 /\ w.pos - w.run >= acc.qpos
 \* strong in-band FEC: speech-only wideband mono stream, FEC on with >= 20 % announced loss, >= 32 kb/s,
 \* speech-like signal; an isolated loss (the packets before it arrived) recovered by a one-packet FEC call
 StrongFecStream == /\ cf.fm = MODE_SILK /\ cf.Fs = 16000 /\ cf.ch = 1 /\ cf.fec >= 1 /\ cf.loss >= 20 /\ cf.br >= 32000
@@ -194,7 +197,10 @@ Step(e) ==
     [] e.k = "L" -> /\ cf' = e /\ w' = NoW /\ acc' = [NoAcc EXCEPT !.drift = acc.drift] /\ l' = l + 1
     [] e.k = "pk" ->
          IF cf.k # "L" THEN Reject(<<"harness: no stream">>)
-         ELSE LET why == PkWhy(e) IN IF why # <<>> THEN Reject(why) ELSE /\ l' = l + 1 /\ UNCHANGED <<cf, w, acc>>
+         ELSE LET why == PkWhy(e) IN
+              IF why # <<>> THEN Reject(why)
+              ELSE /\ l' = l + 1 /\ UNCHANGED <<cf, w>>
+                   /\ acc' = IF acc.qpos = 0 /\ e.tl <= -9000 THEN [acc EXCEPT !.qpos = (e.i + 1) * cf.U] ELSE acc
     [] e.k = "W" ->
          /\ w' = [on |-> TRUE, pos |-> e.start * cf.U, run |-> 0, lv5 |-> NoLevels, since |-> 0, lost |-> FALSE, best |-> BigErr, tailu |-> 0, d |-> DecOfPeek(e.pk)]
          /\ l' = l + 1 /\ UNCHANGED <<cf, acc>>
@@ -214,7 +220,7 @@ Step(e) ==
                   rec == FecRecovers(e) /\ acc.nf < 4000
                   c1 == ~good /\ ~FecRecovers(e) /\ Level >= LevelFloor
                   c2 == c1 /\ w.run >= 160 /\ D!PlcMode(w.d) = MODE_CELT
-                  c5 == c1 /\ CleanSpeechLayer /\ w.run >= 400
+                  c5 == c1 /\ CleanSpeechLayer /\ w.run >= 160
                   r3 == IsolatedFec(e) /\ acc.nf3 < 4000
                   units == e.r \div Qo IN
               IF why # <<>> THEN Reject(why)
@@ -237,7 +243,7 @@ Step(e) ==
                                          !.o2b = IF c2 /\ w.run >= 400 THEN Mx(acc.o2b, e.lv - Mx(Level, LevelFloor)) ELSE acc.o2b,
                                          !.o2c = IF c2 /\ w.run >= 800 THEN Mx(acc.o2c, e.lv - Mx(Level, LevelFloor)) ELSE acc.o2c,
                                          !.o5 = IF c5 THEN Mx(acc.o5, e.lv - Mx(Level, LevelFloor)) ELSE acc.o5,
-                                         !.o5b = IF c5 /\ w.run >= 800 THEN Mx(acc.o5b, e.lv - Mx(Level, LevelFloor)) ELSE acc.o5b,
+                                         !.o5b = IF c5 /\ w.run >= 400 THEN Mx(acc.o5b, e.lv - Mx(Level, LevelFloor)) ELSE acc.o5b,
                                          !.n5 = IF c5 /\ acc.n5 < 1000000 THEN acc.n5 + 1 ELSE acc.n5,
                                          !.sf3 = IF r3 THEN acc.sf3 + e.fe ELSE acc.sf3,
                                          !.sp3 = IF r3 THEN acc.sp3 + e.pe ELSE acc.sp3,
